@@ -547,6 +547,32 @@ func c13(c *Ctx) {
 				})
 				// the loop exits to the recursion only through its natural end; each iteration continues only on equality
 				found := false
+				// equivalent whole-prefix comparison: bytes.HasPrefix(path, key) / bytes.Equal(path[:len(key)], key) with the WHOLE key
+				whole := core.AnyFact(func(f core.Fact) bool {
+					if f.Op != token.ILLEGAL || !f.Truth {
+						return false
+					}
+					cc, ok := f.V.(*ssa.Call)
+					if !ok {
+						return false
+					}
+					isKey := func(v ssa.Value) bool { return core.SameValue(v, keyV) || sameFieldLoad(v, keyV) }
+					switch core.CalleeID(cc) {
+					case "bytes.HasPrefix":
+						return cc.Call.Args[0] == ssa.Value(pathT) && isKey(cc.Call.Args[1])
+					case "bytes.Equal":
+						a, b := cc.Call.Args[0], cc.Call.Args[1]
+						isPfx := func(v ssa.Value) bool {
+							sl, ok := v.(*ssa.Slice)
+							return ok && sl.X == ssa.Value(pathT) && sl.Low == nil && core.IsLenOf(sl.High, isKey)
+						}
+						return (isPfx(a) && isKey(b)) || (isPfx(b) && isKey(a))
+					}
+					return false
+				})
+				if core.InstrGuarded(rc, whole, nil) == nil {
+					found = true
+				}
 				for _, b := range T.Blocks {
 					for i := range b.Succs {
 						if cmp(core.EdgeFacts(b, i)) {
